@@ -12,6 +12,9 @@ package lease_set2
 
 //@ import "github.com/go-i2p/common/destination"
 //@ import "github.com/go-i2p/common/key_certificate"
+//@ import "github.com/go-i2p/common/keys_and_cert"
+//@ import "github.com/go-i2p/common/offline_signature"
+//@ import sig "github.com/go-i2p/common/signature"
 
 //@ loop parseEncryptionKeys 0: unroll 16
 //@ loop parseLease2Array 0: unroll 16
@@ -20,6 +23,36 @@ package lease_set2
 //@ loop serializeLeaseSet2Content 1: concrete 16
 //@ loop validateEncryptionKeyInputs 0: concrete 16
 //@ loop validateEncryptionKeys 0: concrete 16
+
+// ---- C05: Verify() == nil means the signature is valid under the right key
+// over 0x03 || serialisation-without-signature, and (offline keys) the
+// transient key was authorised by the destination's key.
+
+//@ spec func LS2Inv(ls2 *LeaseSet2) bool {
+//@   return ls2 != nil && (ls2.destination.KeysAndCert == nil || keys_and_cert.KacInv(ls2.destination.KeysAndCert)) &&
+//@     (ls2.offlineSignature == nil || offline_signature.OffInv(ls2.offlineSignature))
+//@ }
+//@ contract (ls2 *LeaseSet2) Bytes() (b []byte, err error)
+//@   pure
+//@   requires LS2Inv(ls2)
+//@   ensures fresh(b)
+//@   modifies nothing
+
+//@ spec func LS2Offline(ls2 *LeaseSet2) bool { return ls2.flags&1 != 0 && ls2.offlineSignature != nil }
+//@ spec func LS2SigKey(ls2 *LeaseSet2) []byte {
+//@   if LS2Offline(ls2) { return offline_signature.OffKey(ls2.offlineSignature) }
+//@   return ls2.destination.KeysAndCert.SigningPublic.Bytes()
+//@ }
+//@ spec func LS2Signed(ls2 *LeaseSet2) []byte {
+//@   b, _ := ls2.Bytes()
+//@   return cat([]byte{3}, sub(b, 0, len(b)-len(sig.SigData(ls2.signature))))
+//@ }
+
+//@ contract (ls2 *LeaseSet2) Verify() (err error)
+//@   requires LS2Inv(ls2)
+//@   ensures @C05 err == nil ==> sigvalid(LS2SigKey(ls2), LS2Signed(ls2), sig.SigData(ls2.signature))
+//@   ensures @C05 err == nil && LS2Offline(ls2) ==> sigvalid(ls2.destination.KeysAndCert.SigningPublic.Bytes(), offline_signature.OffSignedData(ls2.offlineSignature), offline_signature.OffSig(ls2.offlineSignature))
+//@   modifies nothing
 
 // C09: the Destination inside an accepted LeaseSet2 obeys the key-type policy.
 //@ lemma C09_ReadLeaseSet2(data []byte) {
